@@ -28,10 +28,11 @@ type mutant struct {
 	N      int
 	Expect string // rule id that must report
 	Quick  bool
-	Why    string // the realistic change it imitates
-	Append string // text appended to the file (helper functions a refactoring introduces)
-	Benign bool   // behaviour-preserving variant: NO rule of any property may report
-	Patch  string // a seeded change (unified diff under <verif>/seeded/<id>/patch.diff) applied as a multi-file overlay
+	Why    string   // the realistic change it imitates
+	Append string   // text appended to the file (helper functions a refactoring introduces)
+	Benign bool     // behaviour-preserving variant: NO rule of any property may report
+	Env    []string // extra environment for the child (an alternative build configuration of the unchanged tree)
+	Patch  string   // a seeded change (unified diff under <verif>/seeded/<id>/patch.diff) applied as a multi-file overlay
 }
 
 var mutants []mutant
@@ -91,6 +92,11 @@ func runSelfTest(c *Ctx, def *propDef, repo, verif string) (bool, any) {
 	}
 	if c.Tier == "thorough" {
 		todo = append(todo, seededMutants(verif, def.ID)...)
+		// the same source under the other word size the build supports: every rule must hold there too (int is 32 bits:
+		// conversions, comparator extremes and constant folding differ)
+		if only := os.Getenv("VARMQLINT_ONLY"); only == "" || strings.Contains("config/GOARCH=386", only) {
+			todo = append(todo, mutant{ID: "config/GOARCH=386", Prop: def.ID, Benign: true, Env: []string{"GOARCH=386", "CGO_ENABLED=0"}, Why: "the unchanged tree analysed for a 32-bit target"})
+		}
 	}
 	exe, err := os.Executable()
 	if err != nil {
@@ -131,6 +137,28 @@ func runSelfTest(c *Ctx, def *propDef, repo, verif string) (bool, any) {
 func runMutant(exe, repo, verif string, m mutant) mutantResult {
 	res := mutantResult{ID: m.ID, Why: m.Why, Expect: m.Expect}
 	var ov []byte
+	if len(m.Env) > 0 {
+		cmd := exec.Command(exe, "-p", m.Prop, "-repo", repo, "-verif", verif, "-json", "-no-selftest")
+		cmd.Env = append(os.Environ(), m.Env...)
+		out, _ := cmd.Output()
+		line := strings.TrimSpace(string(out))
+		if i := strings.LastIndex(line, "\n"); i >= 0 {
+			line = line[i+1:]
+		}
+		var fs []Finding
+		if err := json.Unmarshal([]byte(line), &fs); err != nil {
+			res.Status = "invalid (does not type-check)"
+			res.Reported = []string{line}
+			return res
+		}
+		res.Expect = "(nothing)"
+		res.Status = "quiet (benign)"
+		for _, f := range fs {
+			res.Reported = append(res.Reported, f.Rule+" "+f.Func+": "+f.Construct)
+			res.Status = "FALSE-ALARM"
+		}
+		return res
+	}
 	if m.Patch != "" {
 		files, err := patchOverlay(repo, m.Patch)
 		if err != nil {
